@@ -7,6 +7,8 @@ FUNCTIONS = [
     "safeds_stubgen.api_analyzer._ast_visitor:MyPyAstVisitor._find_alias",
     "safeds_stubgen.api_analyzer._ast_visitor:MyPyAstVisitor.mypy_type_to_abstract_type",
     "safeds_stubgen.api_analyzer._ast_walker:ASTWalker.walk",
+    "safeds_stubgen.api_analyzer._ast_visitor:MyPyAstVisitor.enter_funcdef",
+    "safeds_stubgen.api_analyzer._ast_visitor:MyPyAstVisitor.leave_funcdef",
     "safeds_stubgen.stubs_generator._helper:_get_shortest_public_reexport",
 ]
 EXPLANATION = (
